@@ -877,6 +877,13 @@ func TestC09(t *testing.T) {
 			FastChurn:  rapid.IntRange(0, 2).Draw(rt, "fast churn") == 0,
 			Hammer:     rapid.IntRange(0, 2).Draw(rt, "hammer") > 0,
 		}
+		// (the first plans of a run cover the classes the rule names, whatever is drawn)
+		switch n {
+		case 0:
+			plan.Churn, plan.FastChurn, plan.Hammer = true, true, true
+		case 1:
+			plan.Churn, plan.FastChurn, plan.Hammer = true, false, true
+		}
 		n++
 		V.Journal(t.Name()+"/plans", plan)
 		out := rig.run(plan, fmt.Sprintf("p%d", n))
